@@ -858,6 +858,9 @@ func (s *State) addCmds(l []*cmd) {
 		for i, name := range c.ref {
 			prefix := c.typ.ref[i]
 			bl := s.b.lookup[prefix][name]
+			if len(bl) == 0 {
+				errlog.Abort("'%s' references unknown '%s %s'", c.orig, prefix, name)
+			}
 			if bl[0].typ.fixedName || bl[0].fixedName {
 				if al, found := s.a.lookup[prefix][name]; found {
 					if prefix == "crypto map" {
